@@ -275,7 +275,7 @@ func runC13(c *Ctx) {
 					st = e
 				}
 			}
-			bbPos := hasCond(ps, func(v *Val) bool { return v.K == KAtom && v.At.Op == "le" && v.Neg && v.At.A.String() == "GS.Meta.Blind.BB" })
+			bbPos := hasCond(ps, func(v *Val) bool { return ltIs(v, "-GS.Meta.Blind.BB") })
 			switch {
 			case st == nil:
 				bad = append(bad, "the minimum raise is not initialised after the blinds")
